@@ -32,6 +32,8 @@ Decides:
               interior mutability (Cell/RefCell/Mutex/Atomic/UnsafeCell/OnceCell) in any crate type; Parser::eval and
               meta take &self; run_inner builds a fresh State from its argument.
  E exit sites      words right of `--` never reach the completion scanner (whose markers lead to process::exit): the pos_only test comes first (shared with C09).
+ I doc invariants  tokens spliced from another Doc come with the payload they describe; write_str/write record byte lengths (the slicing of the
+                   renderers relies on it); constant indexes into the slices handed to the completion renderers sit under a size test of that slice.
 Does not decide: arithmetic facts the audit asserts (e.g. PADDING[..n]); user closures / FromStr assumed total."""
 import re, json
 from core import *
